@@ -59,6 +59,9 @@ impl GC {
     /// Sweeps all objects
     /// This is automatically called once the Garbage Collector is dropped
     pub fn destroy(&mut self) {
+        // Nothing is reachable anymore, so all objects are unmarked
+        self.mark_bitmap.clear();
+        self.mark_bitmap.resize(self.objects.len(), false);
         self.sweep();
     }
 
@@ -70,7 +73,9 @@ impl GC {
             return;
         }
 
+        // Start with one (unset) mark bit for every managed object
         self.mark_bitmap.clear();
+        self.mark_bitmap.resize(self.objects.len(), false);
 
         // Mark all reachable objects
         for root in roots.iter() {
@@ -103,12 +108,17 @@ impl GC {
             return;
         }
 
-        let index = unsafe {
-            let object_ptr: *mut Object = o.as_ptr().cast();
-            let universe_ptr: *const Object = self.objects.as_ptr().cast();
-            object_ptr.offset_from(universe_ptr) as usize
+        // The mark bit of an object is at its position in the vector of managed objects.
+        // Objects that are not managed by this garbage collector have no mark bit (and are never freed by it).
+        let index = match self
+            .objects
+            .iter()
+            .position(|a| std::ptr::eq(a.as_ptr(), o.as_ptr()))
+        {
+            Some(index) => index,
+            None => return,
         };
-        debug_assert!(index < self.objects.len());
+        debug_assert!(index < self.mark_bitmap.len());
 
         if o.tag() == Type::Array {
             // Safety: we know the size of mark_bitmap.
